@@ -123,14 +123,14 @@ def std_transition_contract(kind):
 
 def wiring_unit(kind):
     rel, kcls, _ = KERNELS[kind]
-    fns = [f"{rel}::{kcls}.start_epoch", f"{rel}::{kcls}.end_epoch", f"{rel}::{kcls}._adaptive_transition", "liesel/goose/kernel.py::TransitionMixin.transition"]
+    fns = [f"{rel}::{kcls}.__init__", f"{rel}::{kcls}.start_epoch", f"{rel}::{kcls}.end_epoch", f"{rel}::{kcls}._adaptive_transition", "liesel/goose/kernel.py::TransitionMixin.transition"]
 
     @unit(f"C11.wiring.{kind}", "C11", fns,
           summaries=[f"{DA}::da_init/da_step/da_finalize (proved by C11.da_*)", f"{rel}::{kcls}._standard_transition (frame proved by C11.frozen.{kind})"])
     def u(ip, kind=kind):
         """start_epoch = da_init, end_epoch = da_finalize on the kernel's own state; the adaptive transition is the standard
-        transition followed by exactly one da_step(state, reported acceptance prob, epoch.time_in_epoch, the kernel's
-        target/gamma/kappa/t0); the mixin takes the adaptive branch iff the epoch is an adaptation epoch."""
+        transition followed by exactly one da_step(state, reported acceptance prob, epoch.time_in_epoch, the target/gamma/kappa/t0
+        the kernel was constructed with); the mixin takes the adaptive branch iff the epoch is an adaptation epoch."""
         c = ip.ctx
         for tune in ((True, False) if kind == "MH" else (None,)):
             k = sym_kernel(ip, kind, **({"da_tune_step_size": tune} if kind == "MH" else {}))
@@ -160,8 +160,8 @@ def wiring_unit(kind):
                     a = calls[0][1]
                     c.oblige(f"da_step_args{suffix}", And(
                         z3.BoolVal(a[0] is out.f["kernel_state"] and a[0] is ks),
-                        a[1] == out.f["info"].f["acceptance_prob"], a[2] == ep.f["time_in_epoch"], a[3] == k.f["da_target_accept"],
-                        a[4] == k.f["da_gamma"], a[5] == k.f["da_kappa"], a[6] == k.f["da_t0"]))
+                        a[1] == out.f["info"].f["acceptance_prob"], a[2] == ep.f["time_in_epoch"], a[3] == k.ctor_args["da_target_accept"],
+                        a[4] == k.ctor_args["da_gamma"], a[5] == k.ctor_args["da_kappa"], a[6] == k.ctor_args["da_t0"]))  # the values given to the REAL constructor
             # mixin dispatch
             del calls[:]
             c.ghost["std_calls"] = []
@@ -246,3 +246,37 @@ def frozen_unit(kind):
 
 for _k in KERNELS:
     frozen_unit(_k)
+
+
+def init_state_unit(kind):
+    rel, kcls, scls = KERNELS[kind]
+
+    @unit(f"C11.init_state.{kind}", "C11", [f"{rel}::{kcls}.__init__", f"{rel}::{kcls}.init_state"], summaries=[f"{DA}::da_init (C11.da_init)"],
+          assumptions=["A-BJX"] if kind in ("HMC", "NUTS") else [])
+    def u(ip, kind=kind):
+        """the initial kernel state starts from the step size the kernel was constructed with (and, for HMC/NUTS, from the user's inverse
+        mass matrix when one was given, else from the identity in the flat position's layout), with the dual-averaging state initialised
+        from that step size."""
+        c = ip.ctx
+        blackjax_models(ip)
+        calls = install_da_recorders(ip)
+        ip.models["jax.numpy.ones_like"] = lambda ip_, x: ip_.uf("ones_like", ip_.to_U(x))
+        ip.models["jax.numpy.eye"] = lambda ip_, n: ip_.uf("eye", ip_.to_U(n))
+        ip.opaque_attr["size"] = lambda ip_, v: ip_.uf("size", v)
+        variants = [("given", {})] if kind not in ("HMC", "NUTS") else [("given_mm", {"initial_inverse_mass_matrix": z3.Const("user_inv_mm", U)}), ("default_mm.diag", {"mm_diag": True}), ("default_mm.dense", {"mm_diag": False})]
+        for tag, extra in variants:
+            del calls[:]
+            k = sym_kernel(ip, kind, keys=("b", "a"), **extra)
+            ms = z3.Const("ms", U)
+            st = ip.call(method(ip, k, "init_state"), [z3.Const("key", U), ms], {})
+            c.oblige(f"{tag}.step_size_is_constructor_step_size", st.f["step_size"] == k.ctor_args["initial_step_size"])
+            c.oblige(f"{tag}.dual_averaging_initialised_on_this_state", [x[0] for x in calls] == ["da_init"] and calls[0][1][0] is st)
+            if kind in ("HMC", "NUTS"):
+                flat = ip.uf("ravel", ip.to_U(ip.call(k.f["_model"].attrs["extract_position"], [("b", "a"), ms], {})))
+                want = z3.Const("user_inv_mm", U) if tag == "given_mm" else (ip.uf("ones_like", flat) if tag.endswith("diag") else ip.uf("eye", ip.uf("size", flat)))
+                c.oblige(f"{tag}.inverse_mass_matrix", ip.to_U(st.f["inverse_mass_matrix"]).eq(want))
+    return u
+
+
+for _k in KERNELS:
+    init_state_unit(_k)
